@@ -39,7 +39,14 @@ def removal_obligations(rep, name, key, paths, eng_getn, limit_of, bound):
         if not ln:
             if rm:
                 rep.add(Query("%s path %d: files are removed without counting them" % (name, i), "violated", "", 0, "mirsym", key=key, reproduced=None))
+            elif any(e.kind == "call" and re.search(r"(^|::)rename|json_write_to_file|File::create|OpenOptions::open|fs::write|fs::copy", e.callee) for e in r.events):
+                # (a path that adds nothing to the folder - the listing itself failed - cannot grow it and is not asked)
+                # the bound is over every history, including a restart that finds the folder already full: an error-free run of the
+                # clean-up that never counts what is on disk (e.g. one that trusts a counter kept in memory) leaves n files in place
+                rep.add(Query("%s path %d: every error-free run that adds a file to the folder counts the files on disk first (no such path returns without listing them)" % (name, i),
+                              "violated", "the path returns Ok with no length taken of the listing; pc %s" % [str(c)[:80] for c in r.pc[-3:]], 0, "mirsym", key=key + ".counted", reproduced=None))
             continue
+        rep.add(Query("%s path %d: every error-free run that adds a file to the folder counts the files on disk first (no such path returns without listing them)" % (name, i), "holds", "", 0, "mirsym", key=key + ".counted", reproduced=None))
         n = ln[0].ret.e
         m = limit_of(r)
         if m is None:
